@@ -18,8 +18,10 @@ import (
 	"net/http"
 	"net/url"
 	"os"
+	"path/filepath"
 	"reflect"
 	"regexp"
+	"runtime/debug"
 	"sort"
 	"strings"
 	"sync"
@@ -153,8 +155,14 @@ func TestVerifC26(t *testing.T) {
 	c.Assume("GET is governed by ReadAccess, every other method by WriteAccess (the meaning of the two declaration fields).")
 	c.Assume("Socket paths contain no ';' (snapd listens on dirs.SnapdSocket and dirs.SnapSocket only).")
 
+	// many small short-lived allocations (one request each): collect less often
+	defer debug.SetGCPercent(debug.SetGCPercent(800))
+
 	h := &c26H{t: t, c: c, only: kit.OnlyCase()}
 	defer h.close()
+	if h.only >= 0 {
+		c.MinDistinct(0)
+	}
 	if !h.setup() {
 		return
 	}
@@ -231,7 +239,9 @@ var c26VarRx = regexp.MustCompile(`\{[^}]*\}`)
 
 func (h *c26H) setup() bool {
 	c := h.c
-	root, err := os.MkdirTemp("", "r")
+	root := filepath.Join(os.TempDir(), "c26root")
+	os.RemoveAll(root)
+	err := os.MkdirAll(root, 0755)
 	if err != nil {
 		c.Inconclusive("cannot create scratch root: " + err.Error())
 		return false
